@@ -61,13 +61,13 @@ def tbEq (p q : T) : B3 :=
   | _, _ => .panic
 
 /-- The dispatch key denoted by a trait path: leading segments, identifier, the non-binding arguments. -/
-structure Key where
+structure TraitKey where
   init : List T
   ident : Option String
   args : List T
   deriving Repr, DecidableEq
 
-def keyOf (p : T) : Option Key :=
+def keyOf (p : T) : Option TraitKey :=
   match (pathSegments p).reverse with
   | l :: i =>
       match segArgs l with
